@@ -743,10 +743,25 @@ func c01ParseCapture(c *Ctx) {
 			}
 		}
 	}
+	// the same split spelled strings.Cut(line, ":"): before, after, found
+	var cut *ssa.Call
+	if cc, idx := callOfResult(name); cc != nil && idx == 0 && w.calleeName(cc) == "strings.Cut" {
+		if isLine(cc.Call.Args[0]) {
+			if b, isB := constByte(cc.Call.Args[1]); isB && b == ':' {
+				okName = true
+				cut = cc
+			}
+		}
+	}
 	c.check(okName, rule, "ParseMessage/name", w.ipos(ah), "name = line[0:index of first ':'] (pure substring)", "the header name stored is "+w.termKey(name)+": not the untouched text before the first colon (letter case or content altered)")
 	okVal := false
 	if ts := w.resultOfCallTo(value, "strings.TrimSpace", 0); ts != nil {
 		if sl, ok := strip(ts.Call.Args[0]).(*ssa.Slice); ok && isLine(sl.X) && sl.High == nil && colon != nil && isPlusOne(sl.Low, colon) {
+			okVal = true
+		}
+	}
+	if ts := w.resultOfCallTo(value, "strings.TrimSpace", 0); ts != nil && cut != nil {
+		if isResultOf(ts.Call.Args[0], cut, 1) {
 			okVal = true
 		}
 	}
@@ -756,6 +771,13 @@ func c01ParseCapture(c *Ctx) {
 	if colon != nil {
 		found := func(a Atom) bool { return a.Kind == "ltk" && a.K == 0 && strip(a.X) == ssa.Value(colon) }
 		c.check(w.requires(f, ah, found, false), rule, "ParseMessage/colon-required", w.ipos(ah), "a line without colon is rejected", "a header line without ':' is stored instead of being rejected")
+	}
+	if cut != nil {
+		found := func(a Atom) bool {
+			e, isE := a.X.(*ssa.Extract)
+			return a.Kind == "bool" && isE && e.Tuple == ssa.Value(cut) && e.Index == 2
+		}
+		c.check(w.requires(f, ah, found, true), rule, "ParseMessage/colon-required", w.ipos(ah), "a line without colon is rejected", "a header line without ':' is stored instead of being rejected")
 	}
 	mn, mx, _ := countSites(blockStart(ah.Block()), func(b *ssa.BasicBlock, i int) bool { return true }, isInstr(ah))
 	_ = mn
